@@ -154,6 +154,11 @@ fn main() {
     let cmd = args.get(1).map(|s| s.as_str()).unwrap_or("");
     match cmd {
         "run" => cmd_run(),
+        "globals" => {
+            let g = runner::globals_of("ext");
+            let names: Vec<String> = g.names().map(|n| n.as_str().to_owned()).collect();
+            println!("{}", serde_json::to_string(&names).unwrap());
+        }
         "gcsweep" => cmd_gcsweep(),
         "c05" => c05::cmd(),
         "c10api" => c10::cmd(),
